@@ -17,7 +17,7 @@ EXPLANATION = (
     "Does NOT decide: correctness of announced-header heights over arbitrary histories (a value-level fact).")
 RULES = {
     'R1': 'gate matrix: DOM of the three verifiers over every state/cycles/call access on every call path of each exported endpoint',
-    'R2': 'verifier semantics: PRED of each panic/return arm of the three verifiers and EXPR of is_synced',
+    'R2': 'verifier semantics: PRED of each panic/return arm of the three verifiers and EXPR of is_synced; height = best-chain height (= C02.R6)',
     'R3': 'no effect (with_state_mut, msg_cycles_accept, inter-canister call) before the gates',
     'R4': 'WRITERS of the announced-header bookkeeping are the three bookkeeping functions',
     'R5': 'EXPR/TABLE of the announced-header height bookkeeping the sync gate reads',
